@@ -342,7 +342,13 @@ pub(crate) fn mode(entry: &VfsEntry, octal: u32, sym: &str) -> RvResult<u32> {
                         return Err(VfsError::InvalidChmodTarget(sym.to_string()).into());
                     }
                     if entry.is_symlink() || (c == 'd' && !entry.is_dir()) || (c == 'f' && !entry.is_file()) {
-                        return Ok(mode); // target mismatch so just return the original mode
+                        // target mismatch so skip this clause and move on to the next one if any
+                        while let Some(x) = chars.pop() {
+                            if x == ',' {
+                                break;
+                            }
+                        }
+                        break;
                     } else if c == ':' {
                         state = State::Group;
                         break;
